@@ -28,7 +28,7 @@ import re
 import numpy as np
 
 from harness import tnmodel as tm
-from harness.common import natlist
+from harness.common import natlist, natlit
 
 RULE = (
     "align: every stack of 1-4 layers over {vector, operator} (+trace on operator stacks). exact: Gaussian-integer "
@@ -44,6 +44,15 @@ HEADER = tm.HEADER + (
     "From QV Require Import C10.Model C10.Energy C10.Network C10.Proofs.\n"
     "Fixpoint nl_eqb (a b : list nat) : bool := match a, b with [] , [] => true "
     "| x :: a', y :: b' => Nat.eqb x y && nl_eqb a' b' | _, _ => false end.\n"
+    "Definition pr_eqb (a b : nat * nat) : bool := Nat.eqb (fst a) (fst b) && Nat.eqb (snd a) (snd b).\n"
+    "Fixpoint pl_eqb (a b : list (nat * nat)) : bool := match a, b with [], [] => true "
+    "| x :: a', y :: b' => pr_eqb x y && pl_eqb a' b' | _, _ => false end.\n"
+    "Fixpoint pll_eqb (a b : list (list (nat * nat))) : bool := match a, b with [], [] => true "
+    "| x :: a', y :: b' => pl_eqb x y && pll_eqb a' b' | _, _ => false end.\n"
+    "Definition opll_eqb (a b : option (list (list (nat * nat)))) : bool := match a, b with Some x, Some y => pll_eqb x y "
+    "| None, None => true | _, _ => false end.\n"
+    "Definition cap_of_last (o : option (list (list (nat * nat)))) : nat := match o with Some l => fst (last (last l []) (0, 0)%nat) "
+    "| None => 0%nat end.\n"
 )
 
 KEY_F11_NET = "dmrg:energy_network:complex_hermitian_mpo:ket_on_upper_index"
@@ -988,6 +997,480 @@ def oracle_stream(ctx, col):
             break
 
 
+# ----------------------------------------------------------------------------
+# stage 3b: the schedules over histories of solve() calls (Model section 7, coq/C10/Schedule.v)
+#
+# Input alphabet: bond_dims / cutoffs given as scalar, list, tuple, range (both step signs), generator, ndarray, the
+# class defaults; every shape of sequence (single, constant, increasing, decreasing, peak, valley, plateau-then-drop,
+# random) of length 1-4; histories of 1-3 solve() calls, each with / without a bond_dims= and a cutoffs= argument, with
+# fewer / as many / more sweeps than schedule entries, with and without early convergence; DMRG (bsz 1, 2), DMRG1,
+# DMRG2, DMRGX.  (a) scripted: `sweep` is replaced by a recorder that returns scripted integer energies, so what is
+# exercised is exactly __init__ / _set_*_seq / solve(); exact correspondence with Model.dmrg_history / sweeps_done /
+# dir_at / canonize_at.  (b) real DMRG1/DMRG2 runs on chains whose ground state needs more than the final cap: the
+# arguments every sweep receives (same correspondence) and, as a TEST at tolerance (not a theorem), the bonds of the
+# state after every sweep and of dmrg.state after every call against the cap REQUESTED by the documented schedule
+# (reference computed here, independently of the implementation), normalisation, reported energy, variational bound.
+
+CUT_TABLE = [0.0, 1e-14, 1e-12, 1e-10, 1e-8, 1e-6, 1e-4]
+SHAPES = ["scalar", "single", "constant", "increasing", "decreasing", "peak", "valley", "plateau_drop", "random"]
+SEQ_FORMS = ["list", "tuple", "generator", "ndarray"]
+
+
+def draw_values(rng, pool, shape):
+    """a sequence of the given shape over the sorted pool of allowed values"""
+    pool = list(pool)
+    if shape in ("scalar", "single") or len(pool) < 3:
+        return [rng.choice(pool)]
+    if shape == "constant":
+        return [rng.choice(pool)] * rng.randint(2, 3)
+    if shape in ("increasing", "decreasing"):
+        v = sorted(rng.sample(pool, rng.randint(2, min(4, len(pool)))))
+        return v if shape == "increasing" else v[::-1]
+    a, b, c = sorted(rng.sample(pool, 3))
+    if shape == "peak":
+        return rng.choice([[a, c, b], [b, c, a], [a, b, c, a]])
+    if shape == "valley":
+        return rng.choice([[c, a, b], [b, a, c], [c, b, a, c]])
+    if shape == "plateau_drop":
+        return [c, c, rng.choice([a, b])]
+    return [rng.choice(pool) for _ in range(rng.randint(2, 4))]
+
+
+def draw_seq_spec(rng, pool, cut=False, allow_default=False):
+    """{'form', 'vals'[, 'args']}: how the schedule is handed to the library and the entries it stands for"""
+    if allow_default and rng.random() < 0.06:
+        return {"form": "default", "vals": None}
+    if not cut and rng.random() < 0.15:
+        lo, hi = min(pool), max(pool)
+        for _ in range(20):
+            a, b = rng.randint(lo, hi), rng.randint(lo, hi)
+            st = rng.choice([1, 2, 3]) * (1 if b > a else -1)
+            if len(range(a, b, st)) in (1, 2, 3, 4):
+                return {"form": "range", "args": [a, b, st], "vals": list(range(a, b, st))}
+    shape = rng.choice(SHAPES)
+    vals = draw_values(rng, pool, shape)
+    form = "scalar" if shape == "scalar" else rng.choice(SEQ_FORMS)
+    return {"form": form, "vals": vals}
+
+
+def seq_arg(sp, cut=False):
+    if sp is None or sp["form"] == "default":
+        return None
+    v = [float(x) for x in sp["vals"]] if cut else [int(x) for x in sp["vals"]]
+    f = sp["form"]
+    if f == "scalar":
+        return v[0]
+    if f == "range":
+        return range(*sp["args"])
+    if f == "tuple":
+        return tuple(v)
+    if f == "generator":
+        return (x for x in v)
+    if f == "ndarray":
+        return np.array(v)
+    return list(v)
+
+
+def shape_class(vals):
+    if len(vals) == 1:
+        return "single_value"
+    if len(set(vals)) == 1:
+        return "constant"
+    if all(x <= y for x, y in zip(vals, vals[1:])):
+        return "nondecreasing"
+    return "ends_below_max" if vals[-1] < max(vals) else "nonmonotone_ends_at_max"
+
+
+def cut_code(x):
+    x = float(x)
+    return CUT_TABLE.index(x) + 1 if x in CUT_TABLE else None
+
+
+def optnatlist(v):
+    return "None" if v is None else f"(Some {natlist(v)})"
+
+
+def ref_schedule(init_b, init_c, calls, nsweeps):
+    """the documented schedule, computed independently of the library: per call, per sweep (requested max_bond,
+    requested cutoff, where): 'successive sweeps iterate through, then repeat the final value'; an argument given to
+    solve() replaces the sequence, otherwise the next call continues"""
+    sb, kb, sc, kc = list(init_b), 0, list(init_c), 0
+    srcb = srcc = "constructor"
+    out = []
+    for j, (c, n) in enumerate(zip(calls, nsweeps)):
+        if c.get("bond_dims") is not None:
+            sb, kb, srcb = list(c["bond_dims"]["vals"]), 0, "solve_argument"
+        if c.get("cutoffs") is not None:
+            sc, kc, srcc = list(c["cutoffs"]["vals"]), 0, "solve_argument"
+        row = []
+        for _ in range(n):
+            row.append({"max_bond": sb[min(kb, len(sb) - 1)], "cutoff": sc[min(kc, len(sc) - 1)],
+                        "bond_pos": ("beyond_schedule" if kb >= len(sb) else "within_schedule"),
+                        "cut_pos": ("beyond_schedule" if kc >= len(sc) else "within_schedule"),
+                        "bond_seq": list(sb), "cut_seq": list(sc),
+                        "bond_src": srcb if (c.get("bond_dims") is not None or j == 0) else "continued_from_previous_call",
+                        "cut_src": srcc if (c.get("cutoffs") is not None or j == 0) else "continued_from_previous_call"})
+            kb += 1
+            kc += 1
+        out.append(row)
+    return out
+
+
+def ref_sweeps_done(max_sweeps, tol, energies_before, script):
+    es = list(energies_before)
+    k = 0
+    for _ in range(max_sweeps):
+        es.append(script[k])
+        k += 1
+        if len(es) >= 2 and abs(es[-2] - es[-1]) < tol:
+            break
+    return k
+
+
+DEFAULT_BDS = {"DMRG1": list(range(10, 1001, 10)), "DMRG2": [8, 16, 32, 64, 128, 256, 512, 1024]}
+
+
+def history_spec_draw(ctx, rng, real):
+    """one history: class, constructor schedules, 1-3 solve() calls"""
+    if real:
+        L = rng.choice([6, 6, 7, 8] if ctx.quick else [6, 7, 8, 8])
+        full = 2 ** (L // 2)
+        pool = list(range(2, full + 1))
+        cpool = [1e-14, 1e-12, 1e-10]
+        cls = rng.choice(["DMRG2", "DMRG2", "DMRG2", "DMRG:bsz=2", "DMRG1", "DMRG:bsz=1"])
+    else:
+        L = 3
+        pool = list(range(1, 13))
+        cpool = CUT_TABLE
+        cls = rng.choice(["DMRG2", "DMRG1", "DMRG:bsz=2", "DMRG:bsz=1", "DMRGX:bsz=1", "DMRGX:bsz=2"])
+    spec = {"kind": "history_real" if real else "history_scripted", "cls": cls, "L": L, "d": 2, "seed": rng.getrandbits(24)}
+    spec["bond_dims"] = draw_seq_spec(rng, pool, allow_default=(not real and cls in DEFAULT_BDS))
+    spec["cutoffs"] = draw_seq_spec(rng, cpool, cut=True)
+    spec["p0"] = rng.choice(["given", "given", "none"]) if not cls.startswith("DMRGX") else "given"
+    if real:
+        spec["family"] = rng.choice(["float", "spinham"])
+        spec["ham_complex"] = rng.random() < 0.5
+        spec["p0"] = rng.choice(["given", "none"])
+    calls = []
+    cur_len = len(spec["bond_dims"]["vals"]) if spec["bond_dims"]["vals"] else 3
+    for j in range(rng.choice([1, 2, 2, 3])):
+        c = {"bond_dims": None, "cutoffs": None}
+        if j > 0 or rng.random() < 0.25:
+            if rng.random() < (0.6 if j > 0 else 1.0):
+                c["bond_dims"] = draw_seq_spec(rng, pool)
+                cur_len = len(c["bond_dims"]["vals"])
+            if rng.random() < 0.4:
+                c["cutoffs"] = draw_seq_spec(rng, cpool, cut=True)
+        # fewer / as many / more sweeps than entries of the sequence in force
+        c["max_sweeps"] = max(1, cur_len + rng.choice([-1, 0, 1, 2, 3]))
+        if spec["bond_dims"]["form"] == "default":
+            c["max_sweeps"] = min(c["max_sweeps"], 3)
+        c["sweep_sequence"] = rng.choice(["R", "RL", "LR", "RRL", "L", None])
+        if cls.startswith("DMRGX"):
+            c["tol"] = -1e9  # DMRGX converges on the variance: never, so that the scripted energies are all consumed
+        elif real:
+            c["tol"] = rng.choice([0, 0, 1e-9])
+        else:
+            c["tol"] = rng.choice([0, 0, 1, 3])
+        c["script"] = [rng.choice([-7, -5, -5, -4, -4, -2]) for _ in range(c["max_sweeps"])]
+        calls.append(c)
+    spec["calls"] = calls
+    return spec
+
+
+def build_history_dm(spec):
+    import quimb as qu
+    import quimb.tensor as qtn
+
+    L = spec["L"]
+    if spec["kind"] == "history_real":
+        H, _ = build_ham(spec)
+    else:
+        import random
+
+        terms, fields = int_model(random.Random(spec["seed"]), L, 2, False, 2)
+        H = mpo_nn(L, terms, fields, 2)
+    cls = spec["cls"]
+    bsz = 1 if (cls == "DMRG1" or cls.endswith("bsz=1")) else 2
+    qu.seed_rand(spec["seed"] + 3)
+    p0 = None
+    if spec["p0"] == "given":
+        p0 = qtn.MPS_rand_state(L, 2, dtype=H.dtype, seed=spec["seed"] + 1)
+    kw = {"cutoffs": seq_arg(spec["cutoffs"], cut=True), "p0": p0}
+    b = seq_arg(spec["bond_dims"])
+    if cls in ("DMRG1", "DMRG2"):
+        if b is not None:
+            kw["bond_dims"] = b
+        dm = getattr(qtn, cls)(H, **kw)
+    elif cls.startswith("DMRGX"):
+        dm = qtn.DMRGX(H, p0, b, cutoffs=kw["cutoffs"], bsz=bsz)
+    else:
+        dm = qtn.DMRG(H, b, bsz=bsz, **kw)
+    return H, dm, bsz, p0
+
+
+def history_case(ctx, col, spec, n):
+    import quimb.tensor as qtn
+
+    real = spec["kind"] == "history_real"
+    desc = json.loads(json.dumps(spec))
+    cls, L = spec["cls"], spec["L"]
+    init_b = spec["bond_dims"]["vals"] if spec["bond_dims"]["form"] != "default" else DEFAULT_BDS[cls]
+    init_c = spec["cutoffs"]["vals"]
+    try:
+        H, dm, bsz, p0 = build_history_dm(spec)
+    except Exception as e:
+        ctx.violation(f"dmrg:constructor:raised:bond_dims_form={spec['bond_dims']['form']}:cutoffs_form={spec['cutoffs']['form']}",
+                      f"{cls} constructor raised {type(e).__name__}: {str(e)[:160]} on a documented schedule argument", desc)
+        return
+    ctx.bump(f"history:{'real' if real else 'scripted'}:{cls}")
+    ctx.bump(f"history:bond_dims_form:{spec['bond_dims']['form']}")
+    ctx.bump(f"history:bond_dims_shape:{shape_class(init_b)}")
+    bonds0 = bonds_of(dm._k)
+    # the initial random state uses the FIRST entry of bond_dims
+    if p0 is None:
+        ctx.count(("history", n, "bond_dim0"), True)
+        col.add({**desc, "check": "bond_dim0", "observed": bonds0},
+                f"match bond_dim0 {natlist(init_b[:6])} with Some x => nl_eqb (repeat x {natlit(L - 1)}) {natlist(bonds0)} | None => false end",
+                history_fail)
+        if set(bonds0) != {init_b[0]}:
+            ctx.violation(f"dmrg:initial_state:bond_dims={shape_class(init_b)}", "without p0 the initial random state does not have the "
+                          "bond dimension bond_dims[0]", {**desc, "bonds": bonds0})
+    log = []
+    real_sweep = dm.sweep
+    scripts = [list(c["script"]) for c in spec["calls"]]
+    cur = {"call": 0}
+
+    def sweep_spy(direction, canonize=True, **kw):
+        if real:
+            r = real_sweep(direction, canonize=canonize, **kw)
+        else:
+            r = scripts[cur["call"]].pop(0)
+        log.append({"call": cur["call"], "dir": direction, "canonize": bool(canonize), "max_bond": kw.get("max_bond"),
+                    "cutoff": kw.get("cutoff"), "after": bonds_of(dm._k)})
+        return r
+
+    dm.sweep = sweep_spy
+    if not real and cls.startswith("DMRGX"):
+        dm._compute_post_sweep = lambda: None  # the variance of a state the recorder never updates: not under test
+    nsweeps, ebefore, convs = [], [], []
+    Hd = ev0 = None
+    if real:
+        Hd = np.asarray(H.to_dense())
+        ev0 = float(np.linalg.eigvalsh(Hd)[0])
+        scale = max(1.0, float(np.abs(np.linalg.eigvalsh(Hd)).max()))
+    for j, c in enumerate(spec["calls"]):
+        cur["call"] = j
+        n0 = len(log)
+        ebefore.append([complex(e) for e in dm.energies])
+        kw = {}
+        if c["bond_dims"] is not None:
+            kw["bond_dims"] = seq_arg(c["bond_dims"])
+        if c["cutoffs"] is not None:
+            kw["cutoffs"] = seq_arg(c["cutoffs"], cut=True)
+        if c["sweep_sequence"] is not None:
+            kw["sweep_sequence"] = c["sweep_sequence"]
+        try:
+            convs.append(bool(dm.solve(tol=c["tol"], max_sweeps=c["max_sweeps"], **kw)))
+        except Exception as e:
+            ctx.violation(f"dmrg{bsz}:solve:raised:call{j + 1}", f"{cls}.solve raised {type(e).__name__}: {str(e)[:160]} on a valid history",
+                          {**desc, "call": j})
+            return
+        nsweeps.append(len(log) - n0)
+        if real:
+            history_state_checks(ctx, dm, H, Hd, ev0, scale, bsz, desc, j)
+    ref = ref_schedule(init_b, init_c, spec["calls"], nsweeps)
+    ctx.count(("history", json.dumps(spec, sort_keys=True)), any(r["bond_pos"] == "beyond_schedule" for row in ref for r in row) or len(nsweeps) > 1, n=3)
+    # --- direct oracle on the arguments of every sweep (exact) ---------------------------------------------------
+    k = 0
+    seen = set()
+    caps_so_far = []
+    for j, row in enumerate(ref):
+        seq_used = spec["calls"][j]["sweep_sequence"] or dm.opts["default_sweep_sequence"]
+        for i, r in enumerate(row):
+            s = log[k]
+            k += 1
+            caps_so_far.append(r["max_bond"])
+            where = {**desc, "call": j, "sweep_in_call": i, "requested": r, "received": {"max_bond": s["max_bond"], "cutoff": s["cutoff"]}}
+            kb = f"solve:max_bond_schedule:{shape_class(r['bond_seq'])}:{r['bond_pos']}:{r['bond_src']}"
+            if (s["max_bond"] is None or int(s["max_bond"]) != r["max_bond"]) and kb not in seen:
+                seen.add(kb)
+                ctx.violation(kb, f"sweep {i} of solve() call {j + 1} is run with max_bond={s['max_bond']}, the schedule {r['bond_seq']} "
+                              f"({r['bond_src']}) requests {r['max_bond']} ('iterate through, then repeat the final value')", where)
+            kc = f"solve:cutoff_schedule:{shape_class(r['cut_seq'])}:{r['cut_pos']}:{r['cut_src']}"
+            if (s["cutoff"] is None or float(s["cutoff"]) != float(r["cutoff"])) and kc not in seen:
+                seen.add(kc)
+                ctx.violation(kc, f"sweep {i} of solve() call {j + 1} is run with cutoff={s['cutoff']}, the schedule {r['cut_seq']} "
+                              f"({r['cut_src']}) requests {r['cutoff']}", where)
+            want_dir = seq_used[i % len(seq_used)]
+            if s["dir"] != want_dir and "dir" not in seen:
+                seen.add("dir")
+                ctx.violation("solve:sweep_direction", f"sweep {i} of call {j + 1} goes {s['dir']}, sweep_sequence {seq_used!r} says {want_dir}", where)
+            # bonds against the REQUESTED cap (2-site: every bond after the sweep; 1-site: never above anything requested so far)
+            if real and bsz == 2 and max(s["after"]) > r["max_bond"] and "cap" not in seen:
+                seen.add("cap")
+                ctx.violation(f"dmrg2:bond_cap:requested_schedule:{shape_class(r['bond_seq'])}:{r['bond_pos']}:{r['bond_src']}",
+                              f"after sweep {i} of call {j + 1} the state has bonds {s['after']}: above the cap {r['max_bond']} the schedule "
+                              f"{r['bond_seq']} requests for that sweep", where)
+            if real and bsz == 1 and max(s["after"]) > max([1] + bonds0 + caps_so_far) and "cap" not in seen:
+                seen.add("cap")
+                ctx.violation(f"dmrg1:bond_cap:requested_schedule:{shape_class(r['bond_seq'])}:{r['bond_pos']}:{r['bond_src']}",
+                              f"after sweep {i} of call {j + 1} the state has bonds {s['after']}: above every dimension requested so far "
+                              f"({caps_so_far}) and the initial bonds", where)
+    # --- number of sweeps (scripted integer energies: exact) ---------------------------------------------------------
+    if not real and not cls.startswith("DMRGX"):
+        for j, c in enumerate(spec["calls"]):
+            want = ref_sweeps_done(c["max_sweeps"], c["tol"], [e.real for e in ebefore[j]], c["script"])
+            if nsweeps[j] != want:
+                ctx.violation("solve:sweep_count", f"call {j + 1} performed {nsweeps[j]} sweeps, the loop (max_sweeps={c['max_sweeps']}, "
+                              f"tol={c['tol']}, energies {c['script']}) stops after {want}", {**desc, "call": j})
+                break
+            allen = [e.real for e in ebefore[j]] + c["script"][:want]
+            if convs[j] != (len(allen) >= 2 and abs(allen[-2] - allen[-1]) < c["tol"]):
+                ctx.violation("solve:converged_flag", f"call {j + 1} returned converged={convs[j]}", {**desc, "call": j})
+                break
+    # --- exact correspondence with the schedule machine ---------------------------------------------------------------
+    codes = [cut_code(s["cutoff"]) if s["cutoff"] is not None else None for s in log]
+    if any(cd is None for cd in codes) or any(s["max_bond"] is None or int(s["max_bond"]) != s["max_bond"] or not 0 <= int(s["max_bond"]) < 5000 for s in log):
+        ctx.violation("solve:schedule:not_an_entry", "a sweep received a max_bond / cutoff that is not an entry of any schedule given",
+                      {**desc, "received": [(str(s["max_bond"]), str(s["cutoff"])) for s in log]})
+        return
+    hist = "[" + "; ".join(
+        f"({optnatlist(c['bond_dims']['vals'] if c['bond_dims'] else None)}, "
+        f"{optnatlist([cut_code(x) for x in c['cutoffs']['vals']] if c['cutoffs'] else None)}, {natlit(nn)})"
+        for c, nn in zip(spec["calls"], nsweeps)) + "]"
+    obs, k = [], 0
+    for nn in nsweeps:
+        obs.append("[" + "; ".join(f"({natlit(int(log[k + i]['max_bond']))}, {natlit(codes[k + i])})" for i in range(nn)) + "]")
+        k += nn
+    model = f"dmrg_history {natlist(init_b)} {natlist([cut_code(x) for x in init_c])} {hist}"
+    col.add({**desc, "check": "history", "observed": [[(s["max_bond"], s["cutoff"]) for s in log if s["call"] == j] for j in range(len(nsweeps))]},
+            f"opll_eqb ({model}) (Some [" + "; ".join(obs) + "])", history_fail)
+    parts = []
+    k = 0
+    for j, (c, nn) in enumerate(zip(spec["calls"], nsweeps)):
+        seq_used = c["sweep_sequence"] or dm.opts["default_sweep_sequence"]
+        seqc = natlist([0 if ch == "R" else 1 for ch in seq_used])
+        for i in range(nn):
+            s = log[k]
+            k += 1
+            parts.append(f"Nat.eqb (dir_at {seqc} {natlit(i)}) {natlit(0 if s['dir'] == 'R' else 1)}")
+            if bsz == 2:
+                parts.append(f"Bool.eqb (canonize_at {seqc} {natlit(i)}) {str(s['canonize']).lower()}")
+            elif not s["canonize"]:
+                ctx.violation("dmrg1:canonize_flag:after_bond_expansion", "a 1-site sweep is run without canonization after the bond expansion",
+                              {**desc, "call": j, "sweep_in_call": i})
+        if not real and not cls.startswith("DMRGX"):
+            es = "[" + "; ".join(f"({int(e.real)})%Z" for e in reversed(ebefore[j])) + "]"
+            sc = "[" + "; ".join(f"({int(x)})%Z" for x in c["script"]) + "]"
+            parts.append(f"Nat.eqb (sweeps_done {natlit(c['max_sweeps'])} ({int(c['tol'])})%Z {es} {sc}) {natlit(nn)}")
+    if parts:
+        col.add({**desc, "check": "sweep loop", "nsweeps": nsweeps}, " && ".join(parts), history_fail)
+    # the conclusion of C10_history2_bond_cap on the observed final bonds: every bond <= the model's cap of the last sweep
+    if real and bsz == 2 and total:
+        col.add({**desc, "check": "history bond cap", "bonds": bonds_of(dm._k)},
+                f"forallb (fun b => Nat.leb b (cap_of_last ({model}))) {natlist(bonds_of(dm._k))}", history_fail)
+
+
+def history_state_checks(ctx, dm, H, Hd, E0, scale, bsz, desc, j):
+    """after every solve() call of a real run (tests at tolerance): normalisation, reported energy = <psi|H|psi>, bound"""
+    psi = dm.state
+    v = np.asarray(psi.to_dense()).reshape(-1)
+    nrm = float(np.real(np.vdot(v, v)))
+    E = complex(np.vdot(v, Hd @ v)) / nrm
+    E_lib = complex(psi.H @ H.apply(psi)) / nrm
+    E_rep = complex(dm.energy)
+    tol = 1e-8 * scale
+    res = {"call": j, "reported": str(E_rep), "E_dense": str(E), "E_lib": str(E_lib), "E0": E0, "norm": nrm}
+    ctx.count(None, n=4)
+    which = "first_call" if j == 0 else "later_call"
+    if abs(nrm - 1) > 1e-8:
+        ctx.violation(f"dmrg{bsz}:normalisation:history:{which}", "the state returned after a solve() call is not normalised", {**desc, **res})
+    if abs(E_rep - E) > tol or abs(E_lib - E) > tol:
+        ctx.violation(f"dmrg{bsz}:reported_energy:history:{which}", "dmrg.energy after a solve() call is not <psi|H|psi>/<psi|psi> of dmrg.state",
+                      {**desc, **res})
+    if E_rep.real < E0 - tol:
+        ctx.violation(f"dmrg{bsz}:variational_bound:history:{which}", "dmrg.energy after a solve() call is below the exact ground energy", {**desc, **res})
+    if [complex(e) for e in dm.energies] != [complex(sw[-1]) for sw in dm.total_energies]:
+        ctx.violation("dmrg:energies_bookkeeping:history", "energies[k] is not the last total energy of sweep k over several solve() calls",
+                      {**desc, **res})
+
+
+def history_fail(ctx, dsc):
+    chk = dsc["check"]
+    key = {"history": "solve:schedule:history", "sweep loop": "solve:sweep_loop", "bond_dim0": "dmrg:initial_state:bond_dim0",
+           "history bond cap": "dmrg2:bond_cap:history", "empty": "dmrg:schedule:empty_sequence"}[chk]
+    ctx.violation(key, f"observed {chk} differs from the schedule machine (coq/C10/Model.v section 7: dmrg_history / sweeps_done / bond_dim0)", dsc)
+
+
+def rejected_stream(ctx, col):
+    """must-be-rejected inputs: an empty schedule has no final value to repeat (model: mk_iter [] = None)"""
+    import quimb.tensor as qtn
+
+    H = qtn.MPO_ham_heis(3)
+    for where in ("constructor:bond_dims", "constructor:cutoffs", "solve:bond_dims", "solve:cutoffs"):
+        raised = False
+        try:
+            if where == "constructor:bond_dims":
+                qtn.DMRG2(H, bond_dims=[])
+            elif where == "constructor:cutoffs":
+                qtn.DMRG2(H, bond_dims=[2], cutoffs=[])
+            else:
+                dm = qtn.DMRG2(H, bond_dims=[2, 3], cutoffs=1e-10)
+                dm.sweep = lambda direction, **kw: 0.0
+                dm.solve(max_sweeps=1, **{where.split(":")[1]: []})
+        except (IndexError, ValueError, TypeError, StopIteration):
+            raised = True
+        ctx.count(("rejected", where), True)
+        ctx.bump("history:rejected_stream")
+        args = {"constructor:bond_dims": "[] [3%nat] []", "constructor:cutoffs": "[2%nat] [] []",
+                "solve:bond_dims": "[2%nat; 3%nat] [3%nat] [(Some [], None, 1%nat)]",
+                "solve:cutoffs": "[2%nat; 3%nat] [3%nat] [(None, Some [], 1%nat)]"}[where]
+        col.add({"kind": "rejected", "check": "empty", "where": where, "raised": raised},
+                f"Bool.eqb (match dmrg_history {args} with None => true | Some _ => false end) {str(raised).lower()}", history_fail)
+        if not raised:
+            ctx.violation(f"dmrg:schedule:empty_sequence:{where}:not_rejected", "an empty schedule (no final value to repeat) is accepted", {"kind": "rejected", "where": where})
+
+
+# every shape x position family crossed deterministically (real runs): (constructor bond_dims, calls = [(bond_dims argument, max_sweeps)])
+REAL_FAMILIES = [
+    ([8, 3], [(None, 4)]),
+    ([4, 8, 2], [(None, 5)]),
+    ([6, 2, 5], [(None, 5)]),
+    ([4], [(None, 2), ([8, 4, 2], 5)]),
+    ([2, 4], [(None, 2), (None, 3)]),
+    ([8, 8, 3], [(None, 2), (None, 3)]),
+    ([3, 6], [(None, 3), ([7, 5], 1), (None, 3)]),
+    ([5], [(None, 1), ([8, 2], 4), ([4, 6, 3], 5)]),
+]
+
+
+def history_stream(ctx, col):
+    import random
+
+    rng = random.Random(ctx.rng.getrandbits(32))
+    rejected_stream(ctx, col)
+    n = 0
+    for fam_i, (b0, calls) in enumerate(REAL_FAMILIES if not ctx.quick else REAL_FAMILIES[:6]):
+        for cls in (["DMRG2"] if ctx.quick else ["DMRG2", "DMRG:bsz=2", "DMRG1"]):
+            spec = {"kind": "history_real", "cls": cls, "L": 6 + (fam_i % 3), "d": 2, "seed": rng.getrandbits(24),
+                    "family": ["float", "spinham"][fam_i % 2], "ham_complex": fam_i % 3 != 0, "p0": ["given", "none"][fam_i % 2],
+                    "bond_dims": {"form": ["list", "tuple", "generator", "ndarray"][fam_i % 4], "vals": b0},
+                    "cutoffs": {"form": "scalar", "vals": [1e-12]},
+                    "calls": [{"bond_dims": ({"form": "list", "vals": b} if b else None), "cutoffs": None, "max_sweeps": ms,
+                               "sweep_sequence": ["RL", "R", None, "LR"][(fam_i + j) % 4], "tol": 0, "script": []}
+                              for j, (b, ms) in enumerate(calls)]}
+            history_case(ctx, col, spec, n)
+            n += 1
+    for _ in range(ctx.n(16, 200)):
+        history_case(ctx, col, history_spec_draw(ctx, rng, True), n)
+        n += 1
+    for _ in range(ctx.n(120, 1500)):
+        history_case(ctx, col, history_spec_draw(ctx, rng, False), n)
+        n += 1
+    ctx.extra["history_cases"] = n
+
+
 SWEEP_KEYS = {"schedule": "dmrg:schedule", "canonize": "dmrg:canonize_flag", "solve1 bonds": "dmrg1:bond_dimensions", "pre_canon bonds": "dmrg2:canonize_bonds",
               "split_bond": "dmrg2:bond_cap:update", "reported energy": "dmrg:energies_bookkeeping",
               "renorm table": "split:renorm_lookup"}
@@ -1097,11 +1580,11 @@ def run(ctx):
         "monotonicity tolerance: 1e-7 * ||H|| inside a sweep, 1e-4 * ||H|| across the bond expansion (noise 1e-6) of 1-site sweeps",
     ]
     ctx.check_props(["Base/Sums.vo", "Base/TN.vo", "Base/TNExec.vo", "C10/Model.vo", "C10/Energy.vo", "C10/Network.vo",
-                     "C10/Proofs.vo", "C10/Props.v"])
+                     "C10/Proofs.vo", "C10/Schedule.vo", "C10/Props.v"])
     import time
 
     col = Collector()
-    for fn in (corpus_stream, observe_stack, align_stream, exact_stream, truncation_modes_stream, oracle_stream, flush, exact_post, periodic_stream):
+    for fn in (corpus_stream, observe_stack, align_stream, exact_stream, truncation_modes_stream, oracle_stream, history_stream, flush, exact_post, periodic_stream):
         t = time.time()
         if fn is periodic_stream:
             ctx.stage(fn)
@@ -1134,6 +1617,14 @@ def replay_one(ctx, rep, col=None):
     elif kind == "exact":
         spec = {k: rep[k] for k in ("d", "L", "ham_complex", "psi_complex", "chi", "cls", "sub")}
         exact_case(ctx, col, ctx.rng, 10**6, spec=spec)
+    elif kind in ("history_real", "history_scripted"):
+        spec = {k: rep[k] for k in ("kind", "cls", "L", "d", "seed", "bond_dims", "cutoffs", "p0", "calls")}
+        for k in ("family", "ham_complex"):
+            if k in rep:
+                spec[k] = rep[k]
+        history_case(ctx, col, spec, 10**6)
+    elif kind == "rejected":
+        rejected_stream(ctx, col)
     elif kind == "align":
         align_stream(ctx, col)
     elif kind == "stack":
